@@ -134,6 +134,18 @@ Theorem C12_long_unique : forall l,
 Proof. exact long_unique. Qed.
 Print Assumptions C12_long_unique.
 
+(* the consequence clause at the listeners (core/server/ntske.go, server_ip.go,
+   server_scion.go): in every history of key exchanges and NTS requests (any times that
+   do not go back, any presented key ids), judged only by what an outside observer sees -
+   answered or not, and the key id on every cookie handed out, the generation time of a
+   key being the moment its id first appears -: every cookie handed out is sealed under a
+   key generated at most 24 h before, a request is answered only under a key generated at
+   most 72 h before, a key handed out at t is honoured until t + 48 h, ids never repeat *)
+Theorem C12_listeners_meet_oracle : forall t0 steps s lo,
+  lmono t0 steps -> lsn_history t0 steps = Some (s, lo) -> C12_lsn_ok t0 lo = true.
+Proof. exact lsn_model_meets_oracle. Qed.
+Print Assumptions C12_listeners_meet_oracle.
+
 (* the hypotheses are satisfiable and the statements not vacuous: a history with
    a rotation, an expiry and a late lookup *)
 Example C12_example :
